@@ -794,17 +794,22 @@ def chain_real_answer(real):
         return 'err'
     # last item: the hypothesis `chainSelOk` of the theorems (the recorded Path.test() results are
     # results that function can return) must hold on the real code
+    # ... and, for chains the stage-wise model answers, the lazy model must give the same
     return ['ok', [[m, e] for m, e in real['marked']], [[i, b] for i, b in sorted(real['bufs'].items())],
-            unmark(real['marked']), True]
+            unmark(real['marked']), True, True]
 
 
 def chain_model_answer(ans):
     if ans in ('err', 'unmodelled', 'bad-op', 'bad-line'):
         return ans
     v = proto.dec(ans)
+    if v[0] == 'err':
+        # stage-wise model: an exception; the lazy model must fail as well
+        return 'err' if v[1] == 'T' else 'err (stage-wise) but the lazy model answers a stream'
     marked = [[None if m == 'N' else str(m), u_event(e)] for m, e in v[1]]
     bufs = [[int(i), [u_event(e) for e in b]] for i, b in v[2]]
-    return ['ok', marked, bufs, [u_event(e) for e in v[3]], v[4] == 'T']
+    # v[5]: 'lazy' = answered by the lazy model (the interleaving is observable), else: both models agree
+    return ['ok', marked, bufs, [u_event(e) for e in v[3]], v[4] == 'T', v[5] in ('T', 'lazy')]
 
 
 def w_scalar(v):
@@ -847,6 +852,11 @@ def compare(items, res):
         if model == 'unmodelled':
             res.count('model:unmodelled')
             continue
+        if stream.startswith('chains'):
+            lazy = not G.stagewise(case['ops'])
+            res.count('chain-model:' + ('lazy' if lazy else 'stage-wise+lazy'))
+            if lazy:
+                stream = stream + '-lazy'
         if model == 'outside' and case.get('kind') == 'formx':
             # the documentation semantics claims nothing outside `okForest` (the recorded findings);
             # for kind `form` (inside the hypotheses of the oracle) `outside` is a disagreement
